@@ -232,7 +232,9 @@ ModelSubdirItems(p) ==
                d == IF it.install_dir = "" THEN "share/sd" ELSE it.install_dir
                base == IF IsAbs(d) \/ (Len(d) >= 1 /\ SubSeq(d, 1, 1) = "{") THEN d ELSE "{prefix}/" \o d
            IN IF it.kind # "subdir" THEN {}
-              ELSE {<<Join(srcdir, it.files[1]), IF it.strip THEN base ELSE Join(base, it.files[1])>>}
+              \* the directory may be spelled with a trailing slash ('docs/'): it is still the directory docs
+              ELSE LET dn == IF EndsWith(it.files[1], "/") THEN DropSuffix(it.files[1], 1) ELSE it.files[1]
+                   IN {<<Join(srcdir, dn), IF it.strip THEN base ELSE Join(base, dn)>>}
              : k \in DOMAIN p.installs}
 ModelSubdirMissing(c) ==
     {x[1] \o " -> " \o x[2] : x \in ModelSubdirItems(c.p) \ {<<c.plan[k].src, c.plan[k].dest>> : k \in DOMAIN c.plan}}
